@@ -26,7 +26,9 @@ TRUSTED = [
 def build(ctx, tier):
     # the wide variants spread the test digester's eight values over the whole range of the digest type (same order,
     # same trace): digests further apart than half the range
-    specs = [dict(name='anyid_gxx17', src='anyid.cpp'), dict(name='anyid_gxx17_wide64', src='anyid.cpp', defs=['VH_WIDE=2'])]
+    # the lossy variant has a digest wider than size_t whose conversion to size_t (the hash) is not injective
+    specs = [dict(name='anyid_gxx17', src='anyid.cpp'), dict(name='anyid_gxx17_wide64', src='anyid.cpp', defs=['VH_WIDE=2']),
+             dict(name='anyid_gxx17_lossyhash', src='anyid.cpp', defs=['VH_WIDE=3'])]
     if tier == 'thorough':
         specs += [dict(name='anyid_clang14_wide32', src='anyid.cpp', compiler='clang++', std='c++14', defs=['VH_WIDE=1'])]
     if tier == 'thorough':
